@@ -109,6 +109,30 @@ impl Property for C01 {
             1 => gen::gen_fragment(src, &o),
             _ => gen::gen_element_tree(src, &o),
         };
+        let mut doc = doc;
+        if ctx.knobs.variant == 3 && src.ratio(1, 8) {
+            // U+FEFF as ordinary character data at the very start (of a fragment, or of the first text below):
+            // in a &str there is no encoding signature to strip
+            fn first_text(n: &mut ANode) -> bool {
+                match n {
+                    ANode::Text(t) => {
+                        t.insert(0, '\u{feff}');
+                        true
+                    }
+                    _ => n.children_mut().map(|ch| ch.iter_mut().any(first_text)).unwrap_or(false),
+                }
+            }
+            let put = match &mut doc {
+                ANode::Document(ch) if !is_well_formed_document(&ANode::Document(ch.clone())) && !matches!(ch.first(), Some(ANode::Text(_))) && src.bool() => {
+                    ch.insert(0, ANode::Text("\u{feff}x".into()));
+                    true
+                }
+                other => first_text(other),
+            };
+            if put {
+                ctx.label("text_starting_with_U+FEFF");
+            }
+        }
         let mut xot = Xot::new();
         let root = match build_by_route(&mut xot, &doc, src, ctx) {
             Ok(r) => r,
